@@ -230,9 +230,71 @@ class ToyAsm(Slice):
             yield dict(case, text="\n".join(lines[:i] + lines[i + 1:]))
 
 
+TOY_HELP = "/repo/webgui/src/components/toy/ToyHelp.vue"
+
+
+def toy_help_examples():
+    """the example programs of the TOY help page as they stand in /repo (text of the <pre> blocks behind 'Example k:')"""
+    import re, html
+    try:
+        src = open(TOY_HELP, encoding="utf-8").read()
+    except OSError:
+        return []
+    out = []
+    for m in re.finditer(r"<h4>Example (\d+):</h4>\s*<pre[^>]*>(.*?)</pre", src, flags=re.S):
+        out.append((int(m.group(1)), html.unescape(m.group(2))))
+    return out
+
+
+class ToyHelp(Slice):
+    """'the documented example programs compute the documented results': the help page's examples, read from /repo at run time,
+    are run on the implementation (whole steps and through run()); what the page says they do is checked: example 1 leaves the
+    sum 1..n in 'result' (for the n written in the text), example 2 stores the second entry of my_tuple in my_value"""
+    name = "toy-help"
+
+    def exhaustive(self, tier):
+        return [{"example": k, "text": t} for k, t in toy_help_examples()]
+
+    def gen(self, rng, index, tier):
+        return None
+
+    def run(self, case, model):
+        import re
+        from architecture_simulator.simulation.toy_simulation import ToySimulation
+        text, k = case["text"], case["example"]
+        findings, cl = [], {"example:%d" % k}
+        sim = ToySimulation()
+        try:
+            sim.load_program(text)
+            sim.run()
+        except Exception as e:
+            return [("violation", f"help page example {k} does not load and run: {type(e).__name__} {e}")], cl
+        mem = {a: int(v) for a, v in sim.state.memory.memory_file.items()}
+        if k == 1:
+            n = int(re.search(r"n:\s*\.word\s+(\d+)", text).group(1))
+            # .data in declaration order at the top of memory: n at 0xFFE?  the layout is C19's own business — find 'result' by value
+            want = n * (n + 1) // 2
+            if want not in mem.values():
+                findings.append(("violation", f"help page example 1 (sum of 1..{n}) leaves no cell with {want}: {sorted(mem.items())[-4:]}"))
+        elif k == 2:
+            tup = [int(x) for x in re.search(r"my_tuple:\s*\.word\s+([\d ,]+)", text).group(1).replace(" ", "").split(",")]
+            # my_value is declared last: it is the LOWEST data address; it must hold the second tuple entry
+            data = sorted(a for a in mem if a > 2048)
+            if not data or mem[data[0]] != tup[1]:
+                findings.append(("violation", f"help page example 2 leaves {mem.get(data[0]) if data else None} in my_value, the second tuple entry is {tup[1]}"))
+        # the model's lexer + assembler + machine on the same text
+        r = model.call([91, [4096, [], 0, 1, [], []], [ord(c) for c in text]])
+        if r[0]:
+            findings.append(("disagreement", f"the model's lexer+assembler rejects help page example {k}: {r[0]}"))
+        return findings, cl
+
+    def required_classes(self, tier):
+        return ["example:1", "example:2"] if len(toy_help_examples()) >= 2 else []
+
+
 def slices():
-    return [ToyDecode(), ToyAsm(), ToyLex()]
+    return [ToyDecode(), ToyAsm(), ToyLex(), ToyHelp()]
 
 
-BUDGET = {"quick": {"toy-decode": "exhaustive", "toy-asm": 1500, "toy-lex": 2500},
-          "thorough": {"toy-decode": "exhaustive", "toy-asm": 40000, "toy-lex": 60000}}
+BUDGET = {"quick": {"toy-decode": "exhaustive", "toy-asm": 1500, "toy-lex": 2500, "toy-help": "exhaustive"},
+          "thorough": {"toy-decode": "exhaustive", "toy-asm": 40000, "toy-lex": 60000, "toy-help": "exhaustive"}}
